@@ -57,7 +57,7 @@ def parseFields (s : String) : List (String × String) :=
     | _ => none
 
 /-- check one generation; returns (worst comparison code, name of the worst field) -/
-def checkGen (n mu rec : Nat) (before after : String) : Option (Nat × String) := do
+def checkGen (n mu rec : Nat) (lb : Float) (before after : String) : Option (Nat × String) := do
   let fb := parseFields before
   let fa := parseFields after
   let sc := (field fb "S").splitOn ","
@@ -73,7 +73,7 @@ def checkGen (n mu rec : Nat) (before after : String) : Option (Nat × String) :
   let d : Dist Float := { sigma := sigma, mean := mean, pc := pc, ps := ps, C := chunk n C, counter := counter }
   let d' := update FF c n d sel (chunk n B)
   let ev ← (parseBits (field fa "EV")).map Float.ofBits
-  let s' := clampSigma FF 1e-40 d'.sigma ev
+  let s' := clampSigma FF lb d'.sigma ev
   let aS ← (parseBits (field fa "S")).map Float.ofBits
   let aM ← floats (field fa "M"); let aPC ← floats (field fa "PC"); let aPS ← floats (field fa "PS")
   let aC ← floats (field fa "C"); let aBP ← floats (field fa "BP")
@@ -98,9 +98,11 @@ def xtrace (line : String) : String :=
     let fh := parseFields hdr
     match (field fh "n").toNat?, (field fh "mu").toNat?, (field fh "rec").toNat? with
     | some n, some mu, some rec =>
+      -- `CMA::setLowerBound` (after init): the bound of the numerical-stability clamp; 1e-40 unless the header says otherwise
+      let lb := match parseBits (field fh "lb") with | some b => Float.ofBits b | none => 1e-40
       let rs := gens.map fun g =>
         match g.splitOn " > " with
-        | [b, a] => checkGen n mu rec b a
+        | [b, a] => checkGen n mu rec lb b a
         | _ => none
       match rs.findIdx? (fun r => match r with | none => true | some (c, _) => c == 2) with
       | some i => s!"MISMATCH generation {i} {match rs.getD i none with | some (_, f) => f | none => "unparsable"}"
@@ -275,13 +277,23 @@ def xcmsa (line : String) : String :=
       verdict rs
     | _, _ => "bad-op"
 
+/-- the `noise=` field of a `cemtrace` header: `none` | `const:<c>` | `lin:<a>:<b>` (`CrossEntropyMethod::setNoiseType`) -/
+def parseNoise (t : String) : Option (CemNoise Float) :=
+  match t.splitOn ":" with
+  | [""] | ["none"] => some CemNoise.default
+  | ["const", c] => (parseBits c).map fun c => CemNoise.const (Float.ofBits c)
+  | ["lin", a, b] => do
+    let a ← parseBits a; let b ← parseBits b
+    some (CemNoise.linear (Float.ofBits a) (Float.ofBits b))
+  | _ => none
+
 def xcem (line : String) : String :=
   match line.splitOn " | " with
   | [] => "bad-op"
   | hdr :: gens =>
     let fh := parseFields hdr
-    match (field fh "n").toNat?, (field fh "mu").toNat? with
-    | some n, some mu =>
+    match (field fh "n").toNat?, (field fh "mu").toNat?, parseNoise (field fh "noise") with
+    | some n, some mu, some noise =>
       let rs := gens.map fun g =>
         match g.splitOn " > " with
         | [b, a] => do
@@ -289,7 +301,9 @@ def xcem (line : String) : String :=
           let fv ← floats (field fb "F"); let xs ← floats (field fb "X")
           let off : List (List Float × Float) := List.zip (chunk n xs) fv
           let sel := gselect off mu
-          let (m, v) := cemUpdate (0.0 : Float) n (sel.map (·.1))
+          -- `m_counter` is incremented before `updateStrategyParameters` reads the noise term
+          let t := (field fb "T").toNat?.getD 0 + 1
+          let (m, v) := cemUpdate (cemNoise noise t) n (sel.map (·.1))
           match sel.head? with
           | some best =>
             let w := worstOf [("mean", cmpVec m (← floats (field fa "M"))), ("variance", cmpVec v (← floats (field fa "V"))),
@@ -298,7 +312,7 @@ def xcem (line : String) : String :=
           | none => some (2, "empty")
         | _ => none
       verdict rs
-    | _, _ => "bad-op"
+    | _, _, _ => "bad-op"
 
 def step (line : String) : String :=
   let l := line.trimAscii.toString
